@@ -772,8 +772,10 @@ class Context:
         def error_constructor(*args):
             message = args[0] if args else UNDEFINED
             err = JSObject(error_prototype)  # Set prototype
-            err.set("message", to_string(message) if message is not UNDEFINED else "")
-            err.set("name", error_name)
+            if message is not UNDEFINED:
+                err.set("message", to_string(message))  # else inherited: ""
+            # `name` is inherited from the prototype; assigning it creates an
+            # ordinary (enumerable) own property
             err.set("stack", "")  # Stack trace placeholder
             err.set("lineNumber", UNDEFINED)  # Will be set when error is thrown
             err.set("columnNumber", UNDEFINED)  # Will be set when error is thrown
